@@ -58,6 +58,14 @@ def main():
         if r.returncode != 0:
             print("PATCH FAILED:", r.stdout, r.stderr)
             return 0
+        # SEED_EDIT='[["torrentfile/x.py", "old text", "new text"], ...]': exact replacements made on top of the patch
+        import json
+        for f, old, new in json.loads(os.environ.get("SEED_EDIT", "[]")):
+            src = open(os.path.join(tmp, f)).read()
+            if src.count(old) != 1:
+                print("EDIT FAILED: %r occurs %d times in %s" % (old, src.count(old), f))
+                return 0
+            open(os.path.join(tmp, f), "w").write(src.replace(old, new))
         from concurrent.futures import ProcessPoolExecutor
         with ProcessPoolExecutor(max_workers=min(16, len(props))) as ex:
             results = list(ex.map(one, [(p, tmp) for p in props]))
